@@ -357,6 +357,26 @@ func Verif_c16_expand() {
 			}
 		}
 	}
+	// listed known finding: a group holding ".." and a nested group but no
+	// comma of its own: bash gives up on the sequence and drops the braces
+	depth, maxDepth := 0, 0
+	for i := 0; i < len(s); i++ {
+		switch s[i] {
+		case '{':
+			depth++
+			if depth > maxDepth {
+				maxDepth = depth
+			}
+		case '}':
+			if depth > 0 {
+				depth--
+			}
+		}
+	}
+	if verifKnown("C16-failed-sequence-with-nested-group", maxDepth >= 2 && strings.Contains(s, "..")) {
+		verifReach("end")
+		return
+	}
 	if verifKnown("C16-early-close", !same) {
 		want = wantDev // the listed deviation: the implementation must still equal this fully specified model
 	}
